@@ -238,7 +238,17 @@ PRIO_SETS = {
 }
 
 
+def pick_class(d, cls):
+    """a class name, or a list of them to share one instance (the engine picks)"""
+    if isinstance(cls, list):
+        cls = d.pick(cls, 'cls')
+        d.note(cls=cls)
+    return cls
+
+
 def draw_priority(d, prios, route):
+    if prios is None or isinstance(prios, int):
+        return prios                    # a concrete priority: the instance is one slice
     if prios == 'wide':
         # absent, or any integer in [-300, 300]: the library's own comparisons split it
         if route == 'pv' and d.bool('noprio'):
@@ -320,6 +330,7 @@ def step_and_check(obj, ref, fam, state, step, route, priority, value, **ctx):
              "and the minimum on/off times are absent in this harness"],
       assumes=[])
 def prio_ops(d, cls, plan, own_array=True):
+    cls = pick_class(d, cls)
     fam = FAMILIES[FAMILY_OF[cls]]
     World()
     obj = make(cls, fam, own_array=own_array)
@@ -327,7 +338,7 @@ def prio_ops(d, cls, plan, own_array=True):
     state = observe(obj, fam)
     compare(state, expect(ref, fam), 0, "construction")
     step = 0
-    for prios, vals, route in plan:
+    for prios, vals, route in (PLANS[plan] if isinstance(plan, str) else plan):
         step += 1
         priority = draw_priority(d, prios, route)
         value = draw_value(d, fam, vals)
@@ -349,6 +360,7 @@ def lcg(x):
       outside="other sequences; this harness adds depth (long histories over all sixteen slots), not breadth",
       stubs=["virtual clock (World), no time passes"], assumes=[])
 def long_seq(d, cls, length, seeds):
+    cls = pick_class(d, cls)
     fam = FAMILIES[FAMILY_OF[cls]]
     World()
     x = 12345 + 7919 * d.index(seeds, 'seed')
@@ -372,46 +384,46 @@ def long_seq(d, cls, length, seeds):
 
 
 # ------------------------------------------------------------------ pa_element_write
-@meta(bounds="one earlier command (priority symbolic over 1..16, first value), then one WriteProperty aimed at "
+@meta(bounds="one earlier command (priority symbolic over 1..16, or each of a set; first value), then one WriteProperty aimed at "
              "priorityArray[i], i symbolic over 1..16, carrying what do_WritePropertyRequest casts out for an "
-             "array element: a PriorityValue holding the second value in the datatype's alternative (or NULL)",
+             "array element: a PriorityValue holding the second value in the datatype's alternative (a NULL is "
+             "cast out as the empty tuple: that is route pa of prio_ops); accepted as a command at priority i "
+             "or refused without changing anything - both satisfy the statement",
       outside="longer histories; the whole-array write",
       stubs=["virtual clock (World), no time passes"], assumes=[])
-def pa_element_write(d, cls):
+def pa_element_write(d, cls, first="wide"):
+    cls = pick_class(d, cls)
     fam = FAMILIES[FAMILY_OF[cls]]
     enum = fam.get('enum')
     World()
     obj = make(cls, fam, own_array=True)
     ref = RefCommandable(fam['default']())
     state = observe(obj, fam)
-    state = step_and_check(obj, ref, fam, state, 1, 'pv', d.int(1, 16, 'prio'), fam['values'][0]())
+    p0 = d.int(1, 16, 'prio') if first == "wide" else d.pick(PRIO_SETS[first], 'prio')
+    state = step_and_check(obj, ref, fam, state, 1, 'pv', p0, fam['values'][0]())
     i = d.int(1, 16, 'index')
-    if d.bool('relinquish'):
-        value, arg = NULL, PriorityValue(null=())
-    else:
-        value = fam['values'][1]()
-        arg = PriorityValue(**{fam['choice']: enum[value] if enum else value})
+    value = fam['values'][1]()
+    arg = PriorityValue(**{fam['choice']: enum[value] if enum else value})
     try:
         obj.WriteProperty('priorityArray', arg, arrayIndex=i, priority=None)
         err = None
     except Exception as e:
         err = e
-    try:
-        after = observe(obj, fam)
-    except Violation as v:
-        raise Violation("element-write-corrupts-slot", index=i, refused=err is not None, then=v.kind)
+    pa = obj.ReadProperty('priorityArray')
+    held = [type(getattr(pa[k], fam['choice'], None)).__name__ for k in range(1, 17)]
+    if 'PriorityValue' in held:
+        raise Violation("element-write-corrupts-slot", refused=err is not None, index=i,
+                        slot_holds='PriorityValue inside PriorityValue.' + fam['choice'])
+    after = observe(obj, fam)
     if err is not None:
         # the standard makes Priority_Array read-only: a refusal is fine, but it must be clean
         if after != state:
-            raise Violation("element-write-corrupts-slot", index=i, refused=True,
-                            exc=type(err).__name__, slot=after[1][index(i) - 1])
+            raise Violation("refused-write-changed-state", step=2, route='pa-element', priority=i,
+                            before=state, after=after)
     else:
         ref.command(index(i), value)
-        try:
-            compare(after, expect(ref, fam), 2, "element-write")
-        except Violation as v:
-            raise Violation("element-write-corrupts-slot", index=i, refused=False, then=v.kind,
-                            slot=after[1][index(i) - 1])
+        compare(after, expect(ref, fam), 2, "element-write")
+    if 'symint' not in fam:
         wire_check(obj, ref, fam, 2)
     d.reach()
 
@@ -504,8 +516,9 @@ def min_on_off(d, cls, n, prios, first=None):
     ctx = dict(min_on=min_on, min_off=min_off)
     compare(observe(obj, BINARY), expect_binary(ref), 0, "construction")
     for step in range(1, n + 1):
-        if step == 1 and first is not None:
-            priority, c = first[0], first[1]
+        if step == 1 and first is not None:         # this instance is one slice of the tree
+            priority = first[0]
+            c = first[1] if first[1] is not None else d.pick('10-', 'value')
         else:
             priority = d.pick(MIN_PRIOS[prios], 'prio')
             c = d.pick('10-', 'value')
@@ -534,7 +547,101 @@ def min_on_off(d, cls, n, prios, first=None):
 
 
 # ------------------------------------------------------------------ instances
+P3 = ["p3", "01-", "pv"]
+PLANS = {
+    # every priority once, default construction of the array
+    'wide1': [["wide", "012-", "pv"]],
+    'wide1pa': [["wide", "01-", "pa"]],
+    # one occupied slot (absent / 1 / 8 / 16), then any priority
+    'occ+wide': [["p4", "0", "pv"], ["wide", "1-", "pv"]],
+    # write, write-or-relinquish, write-or-relinquish over three slots, then a refused write
+    'deep3': [["p3", "01", "pv"], P3, ["p3", "0-", "pv"], ["hi", "0", "pv"]],
+    # thorough
+    'wide2': [["wide", "01-", "pv"], ["wide", "01-", "pv"]],
+    'deep3x': [["p4", "012-", "pv"]] * 3 + [["hi", "0", "pv"]],
+    'deep4': [P3] * 4 + [["lo", "0", "pv"]],
+    'deep3pa': [["p3", "01-", "pa"], ["p3", "01-", "pv"], ["p3", "01-", "pa"], ["lo", "0", "pa"]],
+    'wide3': [["p4", "0", "pv"], ["wide", "1-", "pv"], ["wide", "0-", "pv"]],
+}
+DATETIME = ['DateTimeValueCmdObject', 'DateTimePatternValueCmdObject']
+
+
+def _groups(names, k):
+    return [names[i:i + k] for i in range(0, len(names), k)]
+
+
 def instances(tier):
     q = tier == "quick"
     out = []
+    every = [c for c, _ in CLASSES]
+    plain = [c for c in every if c not in DATETIME]
+    rep = [c for c in REPRESENTATIVE if c not in DATETIME]
+
+    def ops(classes, plan, budget, own_array=True, tag=None):
+        params = dict(cls=classes if len(classes) > 1 else classes[0], plan=plan)
+        if not own_array:
+            params['own_array'] = False
+        label = "%s,%s" % (tag or plan, "+".join(c.replace('CmdObject', '') for c in classes))
+        out.append(Inst(prio_ops, params, budget=budget, label=label))
+
+    # the two DateTime classes always get instances of their own: while they cannot be
+    # constructed the search of an instance ends at the first violation
+    if q:
+        for g in _groups(plain, 4) + [DATETIME]:
+            ops(g, 'wide1', 90, own_array=False)
+        for g in _groups(rep, 3) + [DATETIME[:1]]:
+            ops(g, 'occ+wide', 90)
+        for c in rep + DATETIME[:1]:
+            ops([c], 'deep3', 90)
+        ops(['AnalogValueCmdObject', 'BinaryValueCmdObject'], 'wide1pa', 60)
+        for g in _groups(plain, 6) + [DATETIME]:
+            out.append(Inst(long_seq, dict(cls=g, length=100, seeds=2), budget=90,
+                            label="100x2," + "+".join(c.replace('CmdObject', '') for c in g)))
+        for g in (['AnalogValueCmdObject', 'MultiStateValueCmdObject', 'CharacterStringValueCmdObject'],
+                  ['BinaryOutputCmdObject', 'AccessDoorCmdObject'], DATETIME[:1]):
+            out.append(Inst(pa_element_write, dict(cls=g, first='p3'), budget=60,
+                            label="+".join(c.replace('CmdObject', '') for c in g)))
+    else:
+        for g in _groups(plain, 2) + [DATETIME]:
+            ops(g, 'wide1', 300, own_array=False)
+        for c in every:
+            ops([c], 'deep3x', 600)
+        for c in REPRESENTATIVE:
+            ops([c], 'wide2', 600)
+            ops([c], 'deep3pa', 300)
+        for c in ['AnalogValueCmdObject', 'BinaryValueCmdObject', 'MultiStateValueCmdObject',
+                  'CharacterStringValueCmdObject', 'DateTimeValueCmdObject']:
+            for lead in PRIO_SETS['p3']:
+                ops([c], [[lead, "01-", "pv"]] + [P3] * 3 + [["lo", "0", "pv"]], 600,
+                    tag="deep4/first=%s" % lead)
+        for c in ['AnalogOutputCmdObject', 'BinaryOutputCmdObject', 'PositiveIntegerValueCmdObject']:
+            for lead in PRIO_SETS['p2']:
+                for v in "01-":
+                    ops([c], [[lead, v, "pv"]] + [["p2", "01-", "pv"]] * 4, 600,
+                        tag="deep5/first=%s%s" % (lead, v))
+        for c in ['LightingOutputCmdObject', 'BinaryOutputCmdObject', 'IntegerValueCmdObject']:
+            for lead in PRIO_SETS['p4']:
+                ops([c], [[lead, "0", "pv"]] + PLANS['wide3'][1:], 600, tag="wide3/first=%s" % lead)
+        for g in _groups(plain, 3) + [DATETIME]:
+            out.append(Inst(long_seq, dict(cls=g, length=100, seeds=16), budget=300,
+                            label="100x16," + "+".join(c.replace('CmdObject', '') for c in g)))
+        for c in REPRESENTATIVE:
+            out.append(Inst(pa_element_write, dict(cls=c, first='wide'), budget=300, label=c))
+
+    # minimum on / off time
+    for c in ('BinaryOutputCmdObject', 'BinaryValueCmdObject'):
+        for p in (None, 8, 1):
+            out.append(Inst(min_hold, dict(cls=c, prio=p), budget=60))
+        if q:
+            for p in MIN_PRIOS['m2']:
+                out.append(Inst(min_on_off, dict(cls=c, n=2, prios='m2', first=[p, None]), budget=90,
+                                label="%s,n=2,m2,first=%s" % (c, p)))
+        else:
+            for p in MIN_PRIOS['m4']:
+                out.append(Inst(min_on_off, dict(cls=c, n=2, prios='m4', first=[p, None]), budget=600,
+                                label="%s,n=2,m4,first=%s" % (c, p)))
+            for p in MIN_PRIOS['m2']:
+                for v in '10-':
+                    out.append(Inst(min_on_off, dict(cls=c, n=3, prios='m2', first=[p, v]), budget=900,
+                                    label="%s,n=3,m2,first=%s%s" % (c, p, v)))
     return out
